@@ -197,6 +197,8 @@ class Engine(object):
                 out.ghost = {'$ypair': fr.env['$ypair']}
             if '$yrow' in fr.env:
                 out.ghost = {'$yrow': fr.env['$yrow']}
+            if '$yseq' in fr.env:
+                out.ghost = {'$yseq': fr.env['$yseq'], '$ylen': fr.env['$ylen']}
             return out
         return ret
 
